@@ -415,6 +415,7 @@ TIES = {
             ('SrcFc.v', ['PyPrelude', 'PgmState', 'PureState', 'LineTok', 'PgmSrc', 'PgmEquiv', 'FcState', 'SrcFc', 'EquivFc'], 'EquivFc')],
     'C16': [('SrcDev.v', ['PyPrelude', 'PgmState', 'AeState', 'SrcAe', 'EquivAe', 'DevState', 'SrcDev', 'EquivDev'], ['EquivAe', 'EquivDev']),
             ('SrcHl.v', ['PyPrelude', 'PgmState', 'AeState', 'SrcHl', 'EquivHl'], 'EquivHl')],
+    'C19': ('SrcPa.v', ['PyPrelude', 'PgmState', 'PaState', 'SrcPa', 'EquivPa'], 'EquivPa'),
     'C07': ('SrcTr.v', ['PyPrelude', 'PgmState', 'TrState', 'SrcTr', 'EquivTr'], 'EquivTr'),
 }
 TIE_NEEDS = {'SrcWr.v': ['pgm'], 'SrcFc.v': ['pgm'], 'SrcDev.v': ['SrcAe.v']}      # other generated files a group builds on
